@@ -25,6 +25,7 @@ func (n *Nodis) Del(keys ...string) int64 {
 				continue
 			}
 			tx.delKey(key)
+			n.signalModifiedKey(key, meta)
 			c++
 		}
 		return nil
